@@ -32,3 +32,11 @@ func Event(point string, id uint32, kv ...int64) {
 		(*h)(point, id, kv...)
 	}
 }
+
+// B converts a flag to an event argument.
+func B(b bool) int64 {
+	if b {
+		return 1
+	}
+	return 0
+}
